@@ -153,11 +153,13 @@ template <class F> static void visit(Slots& s, int i, F&& f) { visit_impl(s, i, 
 enum Kind : uint8_t {
   DFLT, CVAL, MVAL, INPL, CNVL, CNVR, CERR, CNON, COPY, MOVE,           // constructors (replace the slot's object)
   ASGC, ASGM, ASGV, ASGR, ASUL, ASUR, ASGE, ASGN,                        // assignments
-  CLR, TKC, OBS, KILL, ARM, NKIND
+  CLR, TKC, OBS, KILL, ARM,
+  ASGS,                                                                   // x = x.get(): assignment from the object's own contained value
+  NKIND
 };
 static const char* const kKindName[NKIND] = {"dflt", "cval", "mval", "inpl", "cnvl", "cnvr", "cerr", "cnon", "copy", "move",
-                                             "asgc", "asgm", "asgv", "asgr", "asul", "asur", "asge", "asgn", "clr", "tkc", "obs", "kill", "arm"};
-static const int kWeight[NKIND] = {2, 3, 3, 2, 1, 1, 2, 1, 3, 3, 6, 6, 4, 4, 2, 2, 3, 1, 2, 2, 1, 1, 2};
+                                             "asgc", "asgm", "asgv", "asgr", "asul", "asur", "asge", "asgn", "clr", "tkc", "obs", "kill", "arm", "asgs"};
+static const int kWeight[NKIND] = {2, 3, 3, 2, 1, 1, 2, 1, 3, 3, 6, 6, 4, 4, 2, 2, 3, 1, 2, 2, 1, 1, 2, 2};
 static bool is_binary(int k) { return k == COPY || k == MOVE || k == ASGC || k == ASGM; }
 static bool has_payload(int k) { return k == CVAL || k == MVAL || k == INPL || k == CNVL || k == CNVR || k == ASGV || k == ASGR || k == ASUL || k == ASUR; }
 static bool has_errcode(int k) { return k == CERR || k == ASGE; }
@@ -167,7 +169,7 @@ struct Op { uint8_t kind, a, b; uint64_t n; };
 template <class X> static bool applies_t(int k) {
   using TR = Tr<X>;
   switch (k) {
-    case CVAL: case MVAL: case ASGV: case ASGR: case TKC: return TR::fam != FVOID;
+    case CVAL: case MVAL: case ASGV: case ASGR: case TKC: case ASGS: return TR::fam != FVOID;
     case INPL: return TR::fam == FOPT;
     case CNVL: case CNVR: return !std::is_void<typename TR::U>::value;
     case CERR: case CNON: case ASGE: case ASGN: return TR::fam != FOPT;
@@ -271,7 +273,7 @@ static std::string mstr(const M& m) {
 }
 
 struct RunInfo {
-  bool nontriv = false, self_asg = false, move_asg = false, conv_asg = false, take_clear = false, threw = false, err2val = false, val2err = false;
+  bool nontriv = false, self_asg = false, move_asg = false, conv_asg = false, self_value = false, take_clear = false, threw = false, err2val = false, val2err = false;
   long steps = 0;
   std::string obj;   // type of the slot the failure is about (for the failure key)
 };
@@ -403,6 +405,16 @@ struct Interp {
           mm.st = 2; mm.err = 0; mm.val = n; mm.taint = false;
           note_assign(I, old, true);
           if (old.st == 1) info.err2val = true;
+        }
+        break;
+      case ASGS:
+        if constexpr (TR::fam != FVOID) {
+          // the aliasing assignment x = x.get(): the state and the value stay, nothing is constructed from or
+          // assigned from a destroyed element (the tracker sees a use of a dead object otherwise)
+          if (!p || mm.st != 2) break;
+          if (TR::tracked && tracker().throw_countdown > 0) { exclude("armed throw skipped: aliasing self-value assignment"); break; }
+          if (op.n % 2 == 0) *p = static_cast<const E&>(p->get()); else { const E& alias = p->get(); *p = alias; }
+          info.self_value = true;
         }
         break;
       case ASUL: case ASUR:
@@ -684,13 +696,13 @@ static std::vector<Scene> scenes() {
   return {
       {"optional", {mkop(ASGV, O1A, -1, 1), mkop(ASGR, O1B, -1, 2), mkop(ASGC, O1A, O1B), mkop(ASGC, O1B, O1A), mkop(ASGM, O1A, O1B), mkop(ASGM, O1B, O1A),
                     mkop(ASGC, O1A, O1A), mkop(ASGM, O1A, O1A), mkop(CLR, O1A), mkop(TKC, O1B), mkop(COPY, O1A, O1B), mkop(MOVE, O1B, O1A),
-                    mkop(ASGC, OC, O1A), mkop(ASGM, OC, O1B), mkop(ARM, 0), mkop(KILL, O1B), mkop(DFLT, O1B)}},
+                    mkop(ASGC, OC, O1A), mkop(ASGM, OC, O1B), mkop(ARM, 0), mkop(KILL, O1B), mkop(DFLT, O1B), mkop(ASGS, O1A)}},
       {"result", {mkop(ASGV, R1A, -1, 1), mkop(ASGR, R1B, -1, 2), mkop(ASGE, R1A, -1, 0), mkop(ASGE, R1B, -1, 1), mkop(ASGN, R1A), mkop(ASGC, R1A, R1B),
                   mkop(ASGC, R1B, R1A), mkop(ASGM, R1A, R1B), mkop(ASGM, R1B, R1A), mkop(ASGC, R1A, R1A), mkop(ASGM, R1B, R1B), mkop(CLR, R1A), mkop(TKC, R1B),
-                  mkop(COPY, R1A, R1B), mkop(MOVE, R1B, R1A), mkop(ARM, 0), mkop(KILL, R1A), mkop(CERR, R1A, -1, 2)}},
+                  mkop(COPY, R1A, R1B), mkop(MOVE, R1B, R1A), mkop(ARM, 0), mkop(KILL, R1A), mkop(CERR, R1A, -1, 2), mkop(ASGS, R1A)}},
       {"entry", {mkop(ASGV, EN, -1, 1), mkop(ASGM, EN, O1A), mkop(ASGM, O1A, EN), mkop(ASGC, EN, O1A), mkop(ASGC, O1A, EN), mkop(ASGR, O1A, -1, 2),
                  mkop(COPY, EN, EN), mkop(MOVE, EN, EN), mkop(CLR, EN), mkop(TKC, EN), mkop(ASGC, EN, EN), mkop(ASGM, EN, EN), mkop(ARM, 0),
-                 mkop(ASGC, OC, EN), mkop(ASGM, OC, EN), mkop(ASUR, OC, -1, 3), mkop(CNVR, O2, -1, 4)}},
+                 mkop(ASGC, OC, EN), mkop(ASGM, OC, EN), mkop(ASUR, OC, -1, 3), mkop(CNVR, O2, -1, 4), mkop(ASGS, EN)}},
       {"trivial", {mkop(ASGV, OI, -1, 1), mkop(ASGR, OI2, -1, 2), mkop(ASGC, OI, OI2), mkop(ASGM, OI2, OI), mkop(ASGM, OI, OI2), mkop(ASGC, OL, OI), mkop(ASGM, OI, OL),
                    mkop(ASGM, OL, OI), mkop(ASUL, OI, -1, 3), mkop(CLR, OI), mkop(TKC, OI), mkop(COPY, OI2, OI), mkop(MOVE, OI, OI2), mkop(ASGM, OI, OI), mkop(KILL, OI2)}},
       {"void-status", {mkop(ASGE, RV, -1, 1), mkop(ASGE, RV2, -1, 2), mkop(ASGN, RV), mkop(ASGC, RV, RV2), mkop(ASGM, RV, RV2), mkop(ASGM, RV2, RV), mkop(ASGM, RV, RV),
@@ -741,6 +753,7 @@ int main(int argc, char** argv) {
     if (info.self_asg) rep.label("A:seq-with-self-assignment");
     if (info.move_asg) rep.label("A:seq-with-move-assignment");
     if (info.conv_asg) rep.label("A:seq-with-converting-assignment");
+    if (info.self_value) rep.label("A:seq-with-assignment-from-own-value");
     if (info.take_clear) rep.label("A:seq-with-take+clear");
     if (info.threw) rep.label("A:seq-with-throwing-constructor");
     if (info.err2val) rep.label("A:seq-with-result-error->value");
